@@ -46,7 +46,8 @@ def _batch(spec, samples=None):
     else:
         gen = mudslide.TrajGenConst(spec["x0"], spec["k"], 0, seed=spec["seed"])
     if spec["cls"] == "EvenSamplingTrajectory":
-        kw["spawn_stack"] = spec["stack"]
+        # (a list of sizes, or the user's own SpawnStack instance - one object for every run made from these options)
+        kw["spawn_stack"] = spec["_stack_obj"] if spec.get("_stack_obj") is not None else spec["stack"]
         kw["samples"] = 1
     b = mudslide.BatchedTraj(model, gen, getattr(mudslide, spec["cls"]), **kw)
     return [_trace_sig(t) for t in b.compute().traces]
@@ -69,6 +70,9 @@ def oracle_repro(args):
         spec["_arrays"] = (np.array([float(spec["x0"])]), np.array([float(spec["k"])]),
                            np.array([[0.6, 0.3 + 0.1j], [0.3 - 0.1j, 0.4]], dtype=np.complex128))
         keep = [np.array(v) for v in spec["_arrays"]]
+    if spec.get("stack_object") and spec["cls"] == "EvenSamplingTrajectory":
+        from mudslide.even_sampling import SpawnStack
+        spec["_stack_obj"] = SpawnStack.from_quadrature(list(spec["stack"]), method="gl")
     np.random.seed(12345)
     pyrandom.seed(12345)
     a = _batch(spec)
@@ -78,6 +82,10 @@ def oracle_repro(args):
     problems = []
     if len(a) != len(b) or not all(_same(x, y) for x, y in zip(a, b)):
         problems.append("two runs with identical inputs differ")
+    if spec.get("_stack_obj") is not None:
+        c_ = _batch(dict(spec, _stack_obj=None))
+        if len(a) != len(c_) or not all(_same(x, y) for x, y in zip(a, c_)):
+            problems.append("the tree grown from the user's SpawnStack object differs from the tree of the same quadrature given as a list of sizes")
     if spec.get("_model") is not None:
         # ... and the model object itself answers as a brand-new one does (couplings carry the eigenvector signs: bit for bit)
         import mudslide
@@ -429,9 +437,13 @@ def run(ctx):
                         k=float(rng.uniform(13, 18)) if mdl == "modelx" else float(rng.uniform(22, 28)), samples=2, maxsteps=3000)
             spec.pop("array_state", None)
             ctx.count("repro_on_one_shared_model_object")
+        if cls == "EvenSamplingTrajectory" and (i // 5) % 2 == 0:
+            spec.update(stack=[3, 2], stack_object=True)
+            ctx.count("repro_of_even_sampling_trees_from_one_SpawnStack_object")
         ok, obs, req, text = oracle_repro(spec)
         spec.pop("_arrays", None)
         spec.pop("_model", None)
+        spec.pop("_stack_obj", None)
         ctx.case(("repro", cls, spec["samples"], spec["model"] == "super"), {"check": "repro", "spec": spec})
         ctx.count("repro:" + cls)
         if not ok:
